@@ -23,6 +23,8 @@ checks = {
          "Sharing is decided on heap-object identity inside the executor, which covers every later mutation sequence, not only the ones executed.", "6.C16"),
  "C20": ("xy.SimplifyFlatCoords, modular: (1) lemma HC20_Distance - the unexported distanceFromSegmentSquared equals the exact squared point-segment distance (division-free specification, three projection cases, extra ordinates ignored) for ALL REAL ordinates in [-2^10,2^10] (superset of the integer grid), decided by z3's nlsat; (2) HC20_Worker - with that function replaced by an uninterpreted D(p;a,b)>=0, every sequence of n<=6|7 points, stride 2,3(,5), every threshold k/4 in [0,2048] or 0: returned indexes strictly increase, contain 0 and n-1, every omitted point has D<=threshold^2 w.r.t. its retained neighbours (threshold 0: D=0, i.e. exactly on the segment), simplifying the result again removes nothing, the interval stack never under/overflows, input not written; (3) HC20_Simplify - the same end to end without the summary for n<=3|4.",
          "Ideal-arithmetic claim: the division inside distanceFromSegmentSquared is followed in exact real arithmetic; rounding near ties and ordinates whose products are inexact are outside the claim, as are n beyond the bound.", "6.C20"),
+ "C10": ("bigxy.OrientationIndex / xy.OrientationIndex (floating-point filter AND math/big.Float fallback, real code) on every triple of points with integer-valued ordinates |v| <= 2^25, extra ordinates arbitrary: returns the sign of the exact determinant (Collinear iff exactly collinear), antisymmetric under exchanging two arguments, invariant under both cyclic rotations. Every float64 operation on the path is proved exact by a representability obligation (result an integer < 2^53), the multiplication by dpSafeEpsilon is enclosed by the (1+d) rounding model (both outcomes of the error-bound test explored), big.Float runs in a precision-tracking model; queries are pure NRA over the real relaxation of the grid, decided by z3 nlsat.",
+         "Outside the claim: ordinates beyond 2^25 or non-integer (there the products round and the filter's Shewchuk bound and the 53-bit fallback matter) - a bug-hunting harness for 2^27..2^29 with the exact RN53 model exists (HC10_Search, tier 'search') but its integer queries do not terminate in this sandbox, so it is not part of the registered commands.", "6.C10"),
 }
 
 props = [json.loads(l) for l in open('/verif/properties.jsonl')]
